@@ -116,6 +116,8 @@ def run_match_check(pid, rule, negatives):
     from fnexec import execute
     c = Check(pid)
     r = c.model("MC_Match", "MC_Match_%s.cfg" % c.tier, timeout=3400, emits_all=False)
+    # the kernel is affine in (y, target): P01 / P03 of one window on an affine basis = for all real y and targets (model level)
+    c.model("MC_MatchBasis", "MC_MatchBasis_%s.cfg" % c.tier, timeout=3400, emits_all=False)
     judged = sum(1 for j in r.json_lines if j["judged"])
     if judged * 4 < len(r.json_lines):
         raise MachineryError("vacuous: only %d of %d model behaviours are inside the property's scope" % (judged, len(r.json_lines)))
